@@ -342,3 +342,83 @@ Proof.
 Qed.
 
 End Main.
+
+(* ---- the unguarded statement and its refutation on the faithful model ---- *)
+Definition transparent_full_statement : Prop :=
+  forall (E U K V I : Type) (ev_start : E -> U -> estep U K V) (ev_resume : K -> U -> V -> estep U K V)
+    (truthy : V -> bool) (nil_v : V) (forin_init : E -> U -> I) (forin_next : E -> I -> U -> option (I * U))
+    (next_record : U -> nrec U V) (print_record : U -> U * option V) (skip_file : U -> U)
+    (files : ftable) (XA XB : Type) (bumpA : cmode -> Z -> XA -> XA) (bumpB : cmode -> Z -> XB -> XB)
+    (mode : cmode) (P : program E),
+  nocov_prog P = true ->
+  forall n u x xb tr,
+  let rA := run E U K V I ev_start ev_resume truthy nil_v forin_init forin_next next_record print_record skip_file
+              XA bumpA n (fst (annotate files mode P)) (mkst U XA u x tr) in
+  let rP := run E U K V I ev_start ev_resume truthy nil_v forin_init forin_next next_record print_record skip_file
+              XB bumpB n P (mkst U XB u xb tr) in
+  snd rA = snd rP
+  /\ (snd rA <> OFuel V -> s_u _ _ (fst rA) = s_u _ _ (fst rP) /\ s_tr _ _ (fst rA) = s_tr _ _ (fst rP)).
+
+(* a toy interpreter: the state is (records left to read, lines printed so far) *)
+Module Toy.
+Definition U : Type := nat * nat.
+Definition ev_start (_ : unit) (u : U) : estep U unit unit := EDone U unit unit u (inl tt).
+Definition ev_resume (_ : unit) (u : U) (_ : unit) : estep U unit unit := EDone U unit unit u (inl tt).
+Definition next_record (u : U) : nrec U unit :=
+  match fst u with O => NEof U unit u | S r => NRec U unit (r, snd u) end.
+Definition print_record (u : U) : U * option unit := ((fst u, S (snd u)), None).
+Definition run_toy (X : Type) (bump : cmode -> Z -> X -> X) (p : program unit) (x : X) : st U X * outcome unit :=
+  run unit U unit unit unit ev_start ev_resume (fun _ => true) tt (fun _ _ => tt) (fun _ _ _ => None)
+      next_record print_record (fun u => u) X bump 5 p (mkst U X (2%nat, 0%nat) x []).
+(* { }  : an action with an empty body *)
+Definition prog_empty_action : program unit := mkprogram [] [mkaction [] (Some [])] [] [].
+(* { { } } : an action whose body is one empty block *)
+Definition prog_block_action : program unit :=
+  mkprogram [] [mkaction [] (Some [SBlock (mkpos 1 3) (mkpos 1 7) []])] [] [].
+(* END { { } } with no rules and an input that cannot be read is not modelled here: the toy has no failing input *)
+End Toy.
+
+(* F-C18-1: plainly {} prints nothing; annotated, the body is nil and every record is printed *)
+Lemma toy_empty_action :
+  snd (Toy.run_toy unit (fun _ _ x => x) Toy.prog_empty_action tt) = ONormal unit /\
+  s_u _ _ (fst (Toy.run_toy unit (fun _ _ x => x) Toy.prog_empty_action tt)) = (0%nat, 0%nat) /\
+  s_u _ _ (fst (Toy.run_toy cover_array cover_bump (fst (annotate [] MSet Toy.prog_empty_action)) cover_empty)) = (0%nat, 2%nat).
+Proof. vm_compute. repeat split. Qed.
+
+(* F-C18-3: plainly { { } } compiles to no code and every record is printed; annotated it prints nothing *)
+Lemma toy_block_action :
+  s_u _ _ (fst (Toy.run_toy unit (fun _ _ x => x) Toy.prog_block_action tt)) = (0%nat, 2%nat) /\
+  s_u _ _ (fst (Toy.run_toy cover_array cover_bump (fst (annotate [] MSet Toy.prog_block_action)) cover_empty)) = (0%nat, 0%nat).
+Proof. vm_compute. repeat split. Qed.
+
+Theorem transparent_refuted_empty_action : ~ transparent_full_statement.
+Proof.
+  intros H.
+  specialize (H unit Toy.U unit unit unit Toy.ev_start Toy.ev_resume (fun _ => true) tt (fun _ _ => tt)
+                (fun _ _ _ => None) Toy.next_record Toy.print_record (fun u => u) [] cover_array unit
+                cover_bump (fun _ _ x => x) MSet Toy.prog_empty_action eq_refl 5%nat (2%nat, 0%nat) cover_empty tt []).
+  cbn zeta in H. destruct H as [_ H].
+  assert (Hne : snd (run unit Toy.U unit unit unit Toy.ev_start Toy.ev_resume (fun _ => true) tt (fun _ _ => tt)
+                (fun _ _ _ => None) Toy.next_record Toy.print_record (fun u => u) cover_array cover_bump 5
+                (fst (annotate [] MSet Toy.prog_empty_action)) (mkst Toy.U cover_array (2%nat, 0%nat) cover_empty []))
+                <> OFuel unit) by (vm_compute; discriminate).
+  destruct (H Hne) as [Hu _]. vm_compute in Hu. discriminate Hu.
+Qed.
+
+Theorem transparent_refuted_block_action : ~ transparent_full_statement.
+Proof.
+  intros H.
+  specialize (H unit Toy.U unit unit unit Toy.ev_start Toy.ev_resume (fun _ => true) tt (fun _ _ => tt)
+                (fun _ _ _ => None) Toy.next_record Toy.print_record (fun u => u) [] cover_array unit
+                cover_bump (fun _ _ x => x) MSet Toy.prog_block_action eq_refl 5%nat (2%nat, 0%nat) cover_empty tt []).
+  cbn zeta in H. destruct H as [_ H].
+  assert (Hne : snd (run unit Toy.U unit unit unit Toy.ev_start Toy.ev_resume (fun _ => true) tt (fun _ _ => tt)
+                (fun _ _ _ => None) Toy.next_record Toy.print_record (fun u => u) cover_array cover_bump 5
+                (fst (annotate [] MSet Toy.prog_block_action)) (mkst Toy.U cover_array (2%nat, 0%nat) cover_empty []))
+                <> OFuel unit) by (vm_compute; discriminate).
+  destruct (H Hne) as [Hu _]. vm_compute in Hu. discriminate Hu.
+Qed.
+
+(* the guard excludes exactly these shapes *)
+Lemma toy_guards : guard_ok Toy.prog_empty_action = false /\ guard_ok Toy.prog_block_action = false.
+Proof. split; reflexivity. Qed.
